@@ -42,6 +42,10 @@ pub struct SchedCase {
     pub h1: bool,
     /// "" | "uid"
     pub kind: String,
+    /// (thread, job) pairs whose reference is ALSO computed in a process of its own,
+    /// forked from the worker before anything was compiled in it: that reference is the
+    /// first compilation of its process, which the in-process references are not
+    pub proc_refs: Vec<(usize, usize)>,
 }
 
 fn switches_json(sw: &[Switch]) -> Value {
@@ -77,6 +81,7 @@ impl SchedCase {
             "sched_seed": self.sched_seed,
             "switches": switches_json(&self.switches),
             "h1": self.h1,
+            "proc_refs": self.proc_refs.iter().map(|(a, b)| json!([a, b])).collect::<Vec<_>>(),
         })
     }
     pub fn from_json(v: &Value) -> Option<SchedCase> {
@@ -102,6 +107,7 @@ impl SchedCase {
             switches,
             h1: v.get("h1").and_then(|s| s.as_bool()).unwrap_or(true),
             kind: v.get("kind").and_then(|s| s.as_str()).unwrap_or("").to_string(),
+            proc_refs: v.get("proc_refs").and_then(|a| a.as_array()).map(|a| a.iter().filter_map(|p| Some((p.get(0)?.as_u64()? as usize, p.get(1)?.as_u64()? as usize))).collect()).unwrap_or_default(),
         })
     }
 }
@@ -219,7 +225,7 @@ fn uid_check(css: &str) -> Option<String> {
 }
 
 /// Execute a case in this process (the forked child).
-pub fn execute(case: &SchedCase) -> ExecOut {
+pub fn execute(case: &SchedCase, proc_refs: &[((usize, usize), String, String)]) -> ExecOut {
     let nthreads = case.threads.len();
     let uid = case.kind == "uid";
     // references first: each job alone, on a fresh thread, fixed key, nothing else running
@@ -292,6 +298,17 @@ pub fn execute(case: &SchedCase) -> ExecOut {
         }
         for r in refs[tid].iter().flatten() {
             out.obs_digest = mix(out.obs_digest, hash_bytes(2, format!("{}|{:?}", r.observable, r.log).as_bytes()));
+        }
+    }
+    // process-level history: the in-process reference of a job against the same job as the
+    // first compilation of a pristine process
+    for ((t, k), observable, log) in proc_refs {
+        if let Some(Some(r)) = refs.get(*t).and_then(|v| v.get(*k)) {
+            if &r.observable != observable {
+                out.violations.push(("diverge(process-history)".into(), format!("as the first compilation of a fresh process vs after other compilations in the process: {}", first_diff(observable, &r.observable)), *t, *k));
+            } else if &format!("{:?}", r.log) != log {
+                out.violations.push(("diverge(process-history:log)".into(), "logger history differs between a fresh process and a process that compiled other things before".into(), *t, *k));
+            }
         }
     }
     for tid in 0..nthreads {
@@ -619,7 +636,15 @@ fn gen_case(rng: &mut Rng, ctx: &Ctx, pools: &Pools) -> SchedCase {
         7 => Policy::Pct { d: 3, horizon: 3000 },
         _ => Policy::Latency,
     };
-    SchedCase { threads, policy, sched_seed: rng.next_u64(), switches: vec![], h1: rng.chance(0.85), kind: String::new() }
+    let mut proc_refs = vec![];
+    for _ in 0..2 {
+        let t = rng.usize_below(threads.len());
+        let k = rng.usize_below(threads[t].jobs.len());
+        if !proc_refs.contains(&(t, k)) {
+            proc_refs.push((t, k));
+        }
+    }
+    SchedCase { threads, policy, sched_seed: rng.next_u64(), switches: vec![], h1: rng.chance(0.85), kind: String::new(), proc_refs }
 }
 
 fn gen_uid_case(rng: &mut Rng) -> SchedCase {
@@ -643,13 +668,29 @@ fn gen_uid_case(rng: &mut Rng) -> SchedCase {
         };
         threads.push(SimThread { entropy, heap_shift: 0, jobs: vec![j.clone(), j] });
     }
-    SchedCase { threads, policy: Policy::Random(0.2), sched_seed: rng.next_u64(), switches: vec![], h1: true, kind: "uid".into() }
+    SchedCase { threads, policy: Policy::Random(0.2), sched_seed: rng.next_u64(), switches: vec![], h1: true, kind: "uid".into(), proc_refs: vec![] }
 }
 
 fn run_case_forked(case: &SchedCase) -> Result<Value, String> {
+    let mut prefs: Vec<((usize, usize), String, String)> = vec![];
+    if case.kind != "uid" {
+        for &(t, k) in &case.proc_refs {
+            let job = match case.threads.get(t).and_then(|th| th.jobs.get(k)) {
+                Some(j) => j.clone(),
+                None => continue,
+            };
+            match in_child(30_000, move || {
+                let o = run_reference(&job);
+                json!({"observable": o.observable, "log": format!("{:?}", o.log)})
+            }) {
+                ChildEnd::Done(v) => prefs.push(((t, k), v.get("observable").and_then(|s| s.as_str()).unwrap_or("").to_string(), v.get("log").and_then(|s| s.as_str()).unwrap_or("").to_string())),
+                _ => {} // a job that kills its process does so in the run as well and is reported there
+            }
+        }
+    }
     let c2 = case.clone();
     match in_child(30_000, move || {
-        let o = execute(&c2);
+        let o = execute(&c2, &prefs);
         exec_out_to_json(&c2, &o)
     }) {
         ChildEnd::Done(v) => {
@@ -729,6 +770,7 @@ impl Engine for SchedEngine {
                     res.fold(out.get("switches").map(|s| s.to_string()).unwrap_or_default().as_bytes());
                     res.fold(out.get("violations").map(|s| s.to_string()).unwrap_or_default().as_bytes());
                     res.bump("evaluations", 1);
+                    res.bump("process_pristine_references", case.proc_refs.len() as u64);
                     res.bump("jobs_observed", out.get("jobs_observed").and_then(|x| x.as_u64()).unwrap_or(0));
                     res.bump(&format!("policy.{}", case.policy.name()), 1);
                     res.bump(&format!("threads.{}", case.threads.len()), 1);
@@ -834,6 +876,12 @@ impl Engine for SchedEngine {
             for i in 0..c.threads.len() {
                 let mut d = c.clone();
                 d.threads.remove(i);
+                d.proc_refs.retain(|(t, _)| *t != i);
+                for p in d.proc_refs.iter_mut() {
+                    if p.0 > i {
+                        p.0 -= 1;
+                    }
+                }
                 // thread ids shift: recorded switches no longer mean anything
                 d.switches.clear();
                 if d.policy == Policy::Replay {
@@ -848,6 +896,12 @@ impl Engine for SchedEngine {
                 for k in 0..c.threads[t].jobs.len() {
                     let mut d = c.clone();
                     d.threads[t].jobs.remove(k);
+                    d.proc_refs.retain(|(pt, pk)| !(*pt == t && *pk == k));
+                    for p in d.proc_refs.iter_mut() {
+                        if p.0 == t && p.1 > k {
+                            p.1 -= 1;
+                        }
+                    }
                     out.push(d);
                 }
             }
@@ -895,7 +949,7 @@ impl Engine for SchedEngine {
     }
     fn assumptions(&self) -> Vec<String> {
         vec![
-            "reference = the same job alone on a fresh OS thread (empty interner), fixed hash key, no co-runners, same process".into(),
+            "reference = the same job alone on a fresh OS thread (empty interner), fixed hash key, no co-runners, same process; for two jobs per run additionally the same job as the first compilation of a pristine process (process-level history)".into(),
             "interleavings are explored at scheduling points only (SimFs and SimLogger calls, sim-yield(), job boundaries, and with H1 every interner and global-counter operation); code between points is assumed atomic, which holds for safe Rust without shared mutable state".into(),
             "once_cell Lazy tables are forced before simulation starts (first-use races are once_cell's responsibility)".into(),
             "programs using random()/unique-id() are excluded from the comparison, as the property says; unique-id() is checked separately for distinctness and identifier syntax".into(),
